@@ -24,6 +24,7 @@ fn dispatch(op: &str, args: &[Sexp]) -> String {
         "f.dec" => crate::props::c15::op_dec(args),
         "gds.write" => crate::gdsio::op_write(args),
         "gds.read" | "gds.c03" => crate::gdsio::op_read(args),
+        "gds.open" => crate::gdsio::op_open(args),
         "lefraw.import" => crate::props::c16::op_import(args),
         "rawproto.export" => crate::props::c14::op_export(args),
         "rawproto.import" => crate::props::c14::op_import(args),
@@ -42,6 +43,8 @@ fn dispatch(op: &str, args: &[Sexp]) -> String {
         "serde.leflib" => crate::props::c18::op_leflib(args),
         "serde.lefspecial" => crate::props::c18::op_lefspecial(args),
         "lef.lex" => crate::props::lef::op_lex(args),
+        "lef.open" => crate::props::lef::op_open(args),
+        "lef.wfail" => crate::props::lef::op_wfail(args),
         "lef.states" => crate::props::lef::op_states(args),
         "lef.enum" => crate::props::lef::op_enum(args),
         "lef.dbu" => crate::props::lef::op_dbu(args),
